@@ -94,7 +94,7 @@ pub fn child_reproduces(prop: &str, case: &Value, sig: &str, timeout_s: u64) -> 
     }
     let txt = std::fs::read_to_string(&of).unwrap_or_default();
     txt.lines().any(|l| {
-        serde_json::from_str::<Value>(l)
+        crate::util::parse_json_deep(l)
             .ok()
             .is_some_and(|v| v.get("ev").and_then(|e| e.as_str()) == Some("violation") && v.get("sig").and_then(|s| s.as_str()) == Some(sig))
     })
@@ -135,7 +135,7 @@ pub fn dispatch(p: &str, args: &Args, out: &mut Out) -> bool {
     if let Some(path) = args.extra.get("minimise") {
         // mmv <prop> --minimise <replay file> --sig <sig>: prints the minimised case as one JSON line
         let txt = std::fs::read_to_string(path).expect("read case file");
-        let v: Value = serde_json::from_str(&txt).expect("case json");
+        let v: Value = crate::util::parse_json_deep(&txt).expect("case json");
         let case = v.get("case").cloned().unwrap_or(v);
         let sig = args.extra.get("sig").cloned().unwrap_or_default();
         let small = minimise_in_children(p, &case, &sig);
@@ -144,7 +144,7 @@ pub fn dispatch(p: &str, args: &Args, out: &mut Out) -> bool {
     }
     if let Some(path) = &args.replay {
         let txt = std::fs::read_to_string(path).expect("read replay file");
-        let v: Value = serde_json::from_str(&txt).expect("replay json");
+        let v: Value = crate::util::parse_json_deep(&txt).expect("replay json");
         let case = v.get("case").cloned().unwrap_or(v);
         (prop.replay)(args, out, &case);
         return true;
